@@ -55,6 +55,7 @@ def main(argv, tier, base_seed):
         done = 0
         agg = {"runs": 0, "evaluations": 0, "stores": 0, "lookups": 0, "resolves": 0, "shear_tasks": 0, "three_level_chains": 0, "edges": 0, "events": 0}
         kinds, sizes, digests, nontrivial = {}, {}, set(), set()
+        wkinds = {}
         maxdev = 0.0
         rel = {"isotropy_checked": 0, "axis_perm_checked": 0}
         samples = []
@@ -76,6 +77,7 @@ def main(argv, tier, base_seed):
                 agg[k] += r["stats"][k]
             max_tasks = max(max_tasks, r["stats"]["max_tasks"])
             kinds[r["strain_kind"]] = kinds.get(r["strain_kind"], 0) + 1
+            wkinds[r.get("world_kind", "stub")] = wkinds.get(r.get("world_kind", "stub"), 0) + 1
             for k, v in r["history_sizes"].items():
                 sizes[k] = sizes.get(k, 0) + v
             maxdev = max(maxdev, r["maxdev"])
@@ -110,7 +112,7 @@ def main(argv, tier, base_seed):
                 seen.setdefault(signature(v), (s, v))
             for sig, (s, v) in list(seen.items())[:3]:
                 rng = random.Random(s)
-                world = tasksim.gen_stub_world(rng, tier)
+                world = tasksim.gen_world_any(rng, tier)
                 hist = v.get("history")
                 trials = 0
                 if hist:
@@ -148,8 +150,8 @@ def main(argv, tier, base_seed):
                 "monitor_events": agg, "max_tasks_in_one_request": max_tasks, "strain_kinds": kinds, "history_sizes": sizes,
                 "max_request_dependence_over_scale": maxdev, "ride_along_relations": rel,
                 "faults": "none: the task scheduler does no I/O; the simulated quantifier is the request history",
-                "real_components": ["cij/core/tasks.py", "cij/core/phonon_contribution/shear.py", "nonshear.py", "cij/util/voigt.py", "networkx", "numpy"],
-                "stubs": ["duck-typed calculator holding arrays (all worlds of this run)"],
+                "real_components": ["cij.core.calculator.Calculator + qha (calculator worlds)", "cij/core/tasks.py", "cij/core/phonon_contribution/shear.py", "nonshear.py", "cij/util/voigt.py", "networkx", "numpy"],
+                "stubs": ["duck-typed calculator holding arrays (stub worlds)", "input files written by cijsim.world (calculator worlds)"], "world_kinds": wkinds,
                 "known_finding_hits": {k: c for k, (_, c) in known_hits.items()}, "harness_errors": harness[:20],
                 "determinism_reruns": len(jobs2),
             },
